@@ -10,13 +10,15 @@ extern "C" unsigned vp_sink_regpred(unsigned id);           // harness: rejected
 // (typed storage without running the constructor: keeps the IR accesses typed, which cbmc needs for constant propagation)
 template <class X> union vp_raw { X x; vp_raw() {} ~vp_raw() {} };
 static vp_raw<graph> vp_graph_mem;
-static unsigned long vp_arena_tok[16], vp_ctx_tok[32];
+// arena / context objects: zero-initialised typed storage, never constructed (only graph::reset touches them: through r1:: stubs)
+static vp_raw<tbb::task_arena> vp_arena_tok;
+static vp_raw<tbb::task_group_context> vp_ctx_tok;
 static graph& vp_graph() { return vp_graph_mem.x; }
 static void vp_graph_init() {
   graph& g = vp_graph();
   new (&g.my_wait_context_vertex) d1::wait_context_vertex();
-  g.my_context = reinterpret_cast<tbb::task_group_context*>(vp_ctx_tok);
-  g.my_task_arena = reinterpret_cast<tbb::task_arena*>(vp_arena_tok);
+  g.my_context = &vp_ctx_tok.x;
+  g.my_task_arena = &vp_arena_tok.x;
   g.my_is_active = true; g.my_nodes = g.my_nodes_last = nullptr; g.cancelled = g.caught_exception = false; g.own_context = false;
   new (&g.nodelist_mutex) tbb::spin_mutex();
 }
@@ -44,6 +46,9 @@ void* vp_refv(unsigned k) { return static_cast<d1::wait_tree_vertex_interface*>(
 void* vp_graph_vertex() { return static_cast<d1::wait_tree_vertex_interface*>(&vp_graph().my_wait_context_vertex); }
 unsigned long vp_refv_count(unsigned k) { return vp_refv_mem[k].x.m_ref_count.load(std::memory_order_relaxed); }
 void vp_graph_deactivate() { deactivate_graph(vp_graph()); }
+// the real graph::reset(flags): deactivate, context reset (r1 stub), every registered node's reset_node(flags), arena re-attach (r1 stubs), activate
+void vp_graph_reset(unsigned flags) { vp_graph().graph::reset(static_cast<reset_flags>(flags)); }
+unsigned vp_graph_active() { return is_graph_active(vp_graph()); }
 }
 // typed storage handed out by the harness's r1::allocate stub (cbmc cannot constant-propagate a vptr stored into malloc'ed
 // bytes; separate globals, not an array: its simplifier decides pointer (in)equalities only for offset-0 addresses)
